@@ -55,6 +55,7 @@ type fitCase struct {
 	metric   string // as given to the constructor
 	ns, k, l int
 	pure     bool // the quantiser's sub-vector distance replaced by the pure Go loop (the model can evaluate that one bit for bit)
+	trigger  int  // trigger threshold; 0 = the number of vectors (Fit trains); more than that: the quantiser stays untrained
 	vectors  [][]float32
 	late     [][]float32 // stored after Fit (go through encode)
 	queries  [][]float32
@@ -66,7 +67,7 @@ func (c *fitCase) line() string {
 	if c.pure {
 		mode = "pure"
 	}
-	fmt.Fprintf(&b, "pqfit %s %d %d %d %s %d %d", c.metric, c.ns, c.k, c.l, mode, len(c.vectors), len(c.late))
+	fmt.Fprintf(&b, "pqfit %s %d %d %d %s %d %d %d", c.metric, c.ns, c.k, c.l, mode, len(c.vectors), len(c.late), c.trigger)
 	for _, part := range [][][]float32{c.vectors, c.late, c.queries} {
 		var flat []float32
 		for _, v := range part {
@@ -104,7 +105,11 @@ func fitProduct(c *fitCase) (fp *vectorstore.VerifFittedProduct, err error) {
 		fn = pureDistFn(settledMetric(c.metric))
 	}
 	// k-means writes the cluster means INTO the slices it was given (its first centroids alias the data): hand out copies
-	return vectorstore.VerifProductFit(c.metric, c.ns, c.k, c.ns*c.l, copyVecs(c.vectors), fn)
+	trigger := c.trigger
+	if trigger == 0 {
+		trigger = len(c.vectors)
+	}
+	return vectorstore.VerifProductStore(c.metric, c.ns, c.k, c.ns*c.l, trigger, copyVecs(c.vectors), fn)
 }
 
 type fitFailure struct{ sig, what string }
@@ -127,6 +132,10 @@ func judgeProduct(c *fitCase, fp *vectorstore.VerifFittedProduct) (fails []fitFa
 	settled := settledMetric(c.metric)
 	if fp.Metric != settled {
 		fail("pq-fit-metric:"+c.metric, fmt.Sprintf("the quantiser for %s uses the metric %q", c.metric, fp.Metric))
+		return
+	}
+	if c.trigger > len(c.vectors) && !fp.Fitted() {
+		judgeUntrained(c, fp, settled, fail)
 		return
 	}
 	if !fp.Fitted() {
@@ -253,6 +262,33 @@ func judgeProduct(c *fitCase, fp *vectorstore.VerifFittedProduct) (fails []fitFa
 		}
 	}
 	return fails
+}
+
+// a product quantiser below its trigger threshold: both closures are the metric on the raw vectors
+func judgeUntrained(c *fitCase, fp *vectorstore.VerifFittedProduct, settled string, fail func(sig, what string)) {
+	n := len(c.vectors)
+	dim := c.ns * c.l
+	for x := 1; x <= n; x++ {
+		for _, y := range []int{x, 1 + (x*7+3)%n} {
+			vx, vy := c.vectors[x-1], c.vectors[y-1]
+			want, sumAbs, extra := refMetric(settled, vx, vy)
+			gp, gr := fp.FromPoint(uint64(x), uint64(y)), fp.FromPoint(uint64(y), uint64(x))
+			if !(math.Abs(float64(gp)-want) <= tol(dim, extra, sumAbs)) {
+				fail("pq-untrained-from-point:"+settled, fmt.Sprintf("untrained quantiser: DistanceFromPoint(%d)(%d) = %v, %s metric of the two vectors = %v (bound %g)", x, y, gp, settled, want, tol(dim, extra, sumAbs)))
+			}
+			if math.Float32bits(gp) != math.Float32bits(gr) {
+				fail("pq-untrained-symmetry:"+settled, fmt.Sprintf("untrained quantiser: DistanceFromPoint(%d)(%d) = %v but (%d)(%d) = %v", x, y, gp, y, x, gr))
+			}
+		}
+	}
+	for _, q := range c.queries {
+		for y := 1; y <= n; y += 1 + n/6 {
+			want, sumAbs, extra := refMetric(settled, q, c.vectors[y-1])
+			if gf := fp.FromFloat(q, uint64(y)); !(math.Abs(float64(gf)-want) <= tol(dim, extra, sumAbs)) {
+				fail("pq-untrained-from-float:"+settled, fmt.Sprintf("untrained quantiser: DistanceFromFloat(%v)(%d) = %v, %s metric of query and vector = %v (bound %g)", q, y, gf, settled, want, tol(dim, extra, sumAbs)))
+			}
+		}
+	}
 }
 
 // ------------------------------------------------------------------------------------------ data
@@ -388,6 +424,8 @@ func emitFitted(o *vh.Out, c *fitCase, fp *vectorstore.VerifFittedProduct) {
 type bqCase struct {
 	metric  string
 	dim     int
+	preset  *float32 // threshold given to the constructor (spread over the vector length; Fit does nothing)
+	trigger int      // 0 = the number of vectors (Fit trains); more: the quantiser stays untrained (float distance on the raw vectors)
 	vectors [][]float32
 	late    [][]float32
 }
@@ -400,7 +438,11 @@ func (c *bqCase) line() string {
 	for _, v := range c.late {
 		b = append(b, v...)
 	}
-	return fmt.Sprintf("bqfit %s %d %d %d %s %s", c.metric, c.dim, len(c.vectors), len(c.late), hexW32(a), hexW32(b))
+	preset := "-"
+	if c.preset != nil {
+		preset = f32hex(*c.preset)
+	}
+	return fmt.Sprintf("bqfit %s %d %d %d %s %d %s %s", c.metric, c.dim, len(c.vectors), len(c.late), preset, c.trigger, hexW32(a), hexW32(b))
 }
 
 func fitBinary(c *bqCase) (fb *vectorstore.VerifFittedBinary, err error) {
@@ -409,7 +451,11 @@ func fitBinary(c *bqCase) (fb *vectorstore.VerifFittedBinary, err error) {
 			fb, err = nil, fmt.Errorf("panic: %v", r)
 		}
 	}()
-	return vectorstore.VerifBinaryFit(c.metric, "euclidean", c.dim, copyVecs(c.vectors))
+	trigger := c.trigger
+	if trigger == 0 {
+		trigger = len(c.vectors)
+	}
+	return vectorstore.VerifBinaryStore(c.metric, "euclidean", c.preset, trigger, c.dim, copyVecs(c.vectors))
 }
 
 func wordsOfBits(b []bool) []uint64 {
@@ -436,12 +482,31 @@ func judgeBinary(c *bqCase, fb *vectorstore.VerifFittedBinary) (fails []fitFailu
 		}
 	}()
 	thr := fb.Threshold()
+	all := append(copyVecs(c.vectors), c.late...)
+	n := len(c.vectors)
+	if c.preset == nil && c.trigger > n && thr == nil {
+		// untrained: both closures are the float distance of the raw vectors
+		for x := 1; x <= n; x++ {
+			y := 1 + (x*7+3)%n
+			want, sumAbs, _ := refL2(all[x-1], all[y-1])
+			gp, gf := fb.FromPoint(uint64(x), uint64(y)), fb.FromFloat(all[x-1], uint64(y))
+			if !(math.Abs(float64(gp)-want) <= tol(c.dim, 3, sumAbs)) || !(math.Abs(float64(gf)-want) <= tol(c.dim, 3, sumAbs)) {
+				fail("bq-untrained-float:"+c.metric, fmt.Sprintf("untrained binary quantiser: closures give %v / %v for points %d, %d, euclidean distance of the raw vectors = %v", gf, gp, x, y, want))
+			}
+		}
+		return
+	}
+	if c.preset != nil {
+		// the definition is the vector thresholded by the GIVEN value, whatever the constructor made of it
+		thr = make([]float32, c.dim)
+		for i := range thr {
+			thr[i] = *c.preset
+		}
+	}
 	if len(thr) != c.dim {
 		fail("bq-fit-threshold-len:"+c.metric, fmt.Sprintf("Fit() with %d points of dimension %d at the trigger threshold left a threshold of length %d", len(c.vectors), c.dim, len(thr)))
 		return
 	}
-	all := append(copyVecs(c.vectors), c.late...)
-	n := len(c.vectors)
 	for t, v := range c.late {
 		if err := fb.Set(uint64(n+1+t), append([]float32(nil), v...)); err != nil {
 			fail("bq-set-error:"+c.metric, err.Error())
@@ -536,7 +601,11 @@ func fitSection(rng *vh.Rng, o *vh.Out, full bool) {
 			if m == "cosine" && i%3 != 0 {
 				continue
 			}
-			runCase(genFitCase(rng, m, i, full))
+			c := genFitCase(rng, m, i, full)
+			if i%5 == 4 {
+				c.trigger = len(c.vectors) + 1 + rng.Intn(5) // stays untrained
+			}
+			runCase(c)
 		}
 	}
 	// binary quantiser
@@ -545,11 +614,19 @@ func fitSection(rng *vh.Rng, o *vh.Out, full bool) {
 		dims = append(dims, 255, 256, 257, 511, 512, 513, 1000, 1536, 4095, 4096)
 	}
 	for i, dim := range dims {
-		c := &bqCase{metric: []string{"hamming", "jaccard"}[i%2], dim: dim}
+		c := &bqCase{metric: []string{"hamming", "jaccard"}[(i+i/4)%2], dim: dim}
 		n := 2 + rng.Intn(40)
-		c.vectors = genData(rng, []int{gUnit, gBlobs, gMixed, gFewDistinct}[i%4], n, dim, 1+rng.Intn(4))
+		c.vectors = genData(rng, []int{gUnit, gBlobs, gMixed, gFewDistinct}[(i/2)%4], n, dim, 1+rng.Intn(4))
 		c.late = genData(rng, gUnit, 3, dim, 2)
-		if i%3 == 0 {
+		switch i % 4 {
+		case 1: // threshold given to the constructor
+			t := []float32{0.5, 0, -0.25, 3}[rng.Intn(4)]
+			c.preset = &t
+		case 3: // below the trigger threshold
+			c.trigger = n + 1 + rng.Intn(3)
+			c.late = nil
+		}
+		if i%3 == 0 && len(c.late) > 0 {
 			c.late[0] = make([]float32, dim) // all zero
 		}
 		fb, err := fitBinary(c)
@@ -558,8 +635,9 @@ func fitSection(rng *vh.Rng, o *vh.Out, full bool) {
 			o.Fail("bq-fit-error:"+c.metric, "constructor / Set / Fit of the binary quantiser failed: "+err.Error(), c.line())
 			continue
 		}
-		report(judgeBinary(c, fb), c.line())
-		if emitLines && len(fb.Threshold()) == dim {
+		judgeFails := judgeBinary(c, fb)
+		report(judgeFails, c.line())
+		if emitLines && len(fb.Threshold()) == dim && len(judgeFails) == 0 {
 			thr := fb.Threshold()
 			for t := 0; t < 3; t++ {
 				x, y := 1+(t*5)%n, 1+(t*3+1)%n
@@ -602,11 +680,12 @@ func replayPqfit(f []string, w32 func(i int) []float32) string {
 	l, _ := strconv.Atoi(f[4])
 	n, _ := strconv.Atoi(f[6])
 	nl, _ := strconv.Atoi(f[7])
-	c := &fitCase{metric: f[1], ns: ns, k: k, l: l, pure: f[5] == "pure"}
+	trigger, _ := strconv.Atoi(f[8])
+	c := &fitCase{metric: f[1], ns: ns, k: k, l: l, pure: f[5] == "pure", trigger: trigger}
 	dim := ns * l
-	c.vectors, _ = splitVecs(w32(8), n, dim)
-	c.late, _ = splitVecs(w32(9), nl, dim)
-	q := w32(10)
+	c.vectors, _ = splitVecs(w32(9), n, dim)
+	c.late, _ = splitVecs(w32(10), nl, dim)
+	q := w32(11)
 	c.queries, _ = splitVecs(q, len(q)/dim, dim)
 	fp, err := fitProduct(c)
 	if err != nil {
@@ -620,8 +699,13 @@ func replayBqfit(f []string, w32 func(i int) []float32) string {
 	n, _ := strconv.Atoi(f[3])
 	nl, _ := strconv.Atoi(f[4])
 	c := &bqCase{metric: f[1], dim: dim}
-	c.vectors, _ = splitVecs(w32(5), n, dim)
-	c.late, _ = splitVecs(w32(6), nl, dim)
+	if f[5] != "-" {
+		t := w32(5)[0]
+		c.preset = &t
+	}
+	c.trigger, _ = strconv.Atoi(f[6])
+	c.vectors, _ = splitVecs(w32(7), n, dim)
+	c.late, _ = splitVecs(w32(8), nl, dim)
 	fb, err := fitBinary(c)
 	if err != nil {
 		return "fit failed: " + err.Error()
